@@ -143,8 +143,9 @@ def shoc_standard(c, *, as_coords=True, coord_kind='floatnan', extra=(), leading
 
 def ugrid(c, *, edges='none', transposed=False, start_index=0, fill='none', coords_as='vars',
           face_dimension_attr=True, edge_transposed=False, extra=(), face_coords=False, tables=(), edge_coords=False, kw_maxn=None,
-          latitude_first=False):
-    """edges: 'none' | 'dimension' (edge_dimension attr only) | 'edge_node' (connectivity variable, implied
+          latitude_first=False, edge_data=True):
+    """edge_data=False with edges='dimension': the mesh names an edge dimension that no variable uses (it has no size in the dataset).
+    edges: 'none' | 'dimension' (edge_dimension attr only) | 'edge_node' (connectivity variable, implied
     dimension) | 'both'."""
     nnode, nface = sym_size(c, 'nnode', 0), sym_size(c, 'nface', 0)
     maxn = kw_maxn if kw_maxn is not None else sym_size(c, 'maxn', 3)
@@ -180,7 +181,7 @@ def ugrid(c, *, edges='none', transposed=False, start_index=0, fill='none', coor
                 add_var(ds, 'edge_node', ('Two', 'nedge'), sym_array(c, 'edge_node', (2, nedge), 'int', INT32), en_attrs)
             else:
                 add_var(ds, 'edge_node', ('nedge', 'Two'), sym_array(c, 'edge_node', (nedge, 2), 'int', INT32), en_attrs)
-        if edges == 'dimension':
+        if edges == 'dimension' and edge_data:
             # VALID-UGRID: a declared edge_dimension exists in the dataset (here through an edge data variable)
             add_var(ds, 'edge_data', ('nedge',), sym_array(c, 'edge_data', (nedge,), 'V'))
     for t, dims_, shp in (('face_edge', ('nface', 'maxn'), None), ('face_face', ('nface', 'maxn'), None), ('edge_face', ('nedge', 'Two'), None)):
